@@ -185,29 +185,44 @@ func (p *simpleExpressionPlanner) analyze() error {
 	return nil
 }
 
+// analyzeCond reads the conditions of a selector as TraceQL does: && binds tighter than ||.
+// The grammar nests `h1 op1 h2 op2 h3 ...` to the right whatever the operators are, so the chain is
+// regrouped here into a disjunction of conjunctions (two conditions without an operator are a disjunction).
 func (p *simpleExpressionPlanner) analyzeCond(exp *traceql_parser.AttrSelectorExp) *condition {
-	var res *condition
 	if exp == nil {
 		return nil
 	}
-	if exp.ComplexHead != nil {
-		res = p.analyzeCond(exp.ComplexHead)
-	} else if exp.Head != nil {
-		term := exp.Head.String()
-		if p.terms[term] != 0 {
-			res = &condition{simpleIdx: p.terms[term] - 1}
-		} else {
-			p.termIdx = append(p.termIdx, exp.Head)
-			p.terms[term] = len(p.termIdx)
-			res = &condition{simpleIdx: len(p.termIdx) - 1}
+	var groups []*condition
+	var group []*condition
+	for ; exp != nil; exp = exp.Tail {
+		group = append(group, p.analyzeHead(exp))
+		if exp.Tail == nil || exp.AndOr != "&&" {
+			groups = append(groups, joinConds("&&", group))
+			group = nil
 		}
 	}
-	if exp.Tail != nil {
-		res = &condition{
-			simpleIdx: -1,
-			op:        exp.AndOr,
-			complex:   []*condition{res, p.analyzeCond(exp.Tail)},
-		}
+	return joinConds("||", groups)
+}
+
+// analyzeHead: one condition (de-duplicated by its text) or a parenthesised expression
+func (p *simpleExpressionPlanner) analyzeHead(exp *traceql_parser.AttrSelectorExp) *condition {
+	if exp.ComplexHead != nil {
+		return p.analyzeCond(exp.ComplexHead)
+	}
+	term := exp.Head.String()
+	if p.terms[term] != 0 {
+		return &condition{simpleIdx: p.terms[term] - 1}
+	}
+	p.termIdx = append(p.termIdx, exp.Head)
+	p.terms[term] = len(p.termIdx)
+	return &condition{simpleIdx: len(p.termIdx) - 1}
+}
+
+// joinConds: c1 op (c2 op (... cn))
+func joinConds(op string, cs []*condition) *condition {
+	res := cs[len(cs)-1]
+	for i := len(cs) - 2; i >= 0; i-- {
+		res = &condition{simpleIdx: -1, op: op, complex: []*condition{cs[i], res}}
 	}
 	return res
 }
